@@ -155,6 +155,57 @@ func runC18(c *h.Ctx) {
 		cs.Cover("j2t_body_dynamic_cases")
 	})
 
+	// ---- (a000) many http-mapped structs in one document: the native converter hands control to Go once per JSON
+	// object whose struct has an http-mapped field, so the number of hand-backs grows with the width of the
+	// document (thousands of list elements) - every flavour converts them all
+	var wideDesc *thrift.TypeDescriptor
+	c.Run("j2t-http-wide-join", c.N(12, 48), func(cs *h.Case) {
+		if wideDesc == nil {
+			svc, err := thrift.NewDescritorFromContent(context.Background(), "hw.thrift", "namespace go verif\nstruct E { 1: string h (api.header=\"X-H\"), 2: i32 n }\nstruct R { 1: list<E> es, 2: string tail }\nservice Svc { R M(1: R req) }\n", nil, false)
+			if err != nil {
+				cs.Viol("flavour:parse-idl", "err", err)
+				return
+			}
+			wideDesc, _ = RootOf(svc, "M")
+		}
+		n := []int{100, 4095, 4096, 4097, 5000, 9000}[cs.I%6]
+		var sb strings.Builder
+		sb.WriteString(`{"es":[`)
+		want := tref.Struct()
+		l := &tref.Val{T: tref.LIST, ET: tref.STRUCT}
+		for i := 0; i < n; i++ {
+			if i > 0 {
+				sb.WriteByte(',')
+			}
+			fmt.Fprintf(&sb, `{"n":%d}`, i)
+			l.L = append(l.L, tref.Struct(tref.Field{ID: 1, V: tref.Str("hv")}, tref.Field{ID: 2, V: tref.Int32(int32(i))}))
+		}
+		sb.WriteString(`],"tail":"t"}`)
+		want.Fs = append(want.Fs, tref.Field{ID: 1, V: l}, tref.Field{ID: 2, V: tref.Str("t")})
+		sr, _ := stdhttp.NewRequest("POST", "http://verif.example/w", bytes.NewReader([]byte(sb.String())))
+		sr.Header.Set("Content-Type", "application/json")
+		sr.Header.Set("X-H", "hv")
+		req, err := dhttp.NewHTTPRequestFromStdReq(sr)
+		if err != nil {
+			cs.Viol("flavour:request-build", "err", err)
+			return
+		}
+		cs.Info("elements", n)
+		ctx := context.WithValue(context.Background(), conv.CtxKeyHTTPRequest, req)
+		cv := j2t.NewBinaryConv(conv.Options{EnableHttpMapping: true})
+		out, err := cv.Do(ctx, wideDesc, []byte(sb.String()))
+		if err != nil {
+			cs.Viol("flavour:j2t-http-wide:error-on-conforming", "err", err, "elements", n)
+			return
+		}
+		if got, derr := tref.Decode(out, tref.STRUCT); derr != nil || !tref.EqualUnordered(got, want) {
+			cs.Viol("flavour:j2t-http-wide:wrong-bytes", "elements", n, "decode-error", derr)
+			return
+		}
+		cs.Res("j2t-http-wide", "ok:"+h.Sha(out))
+		cs.Cover("j2t_http_wide_cases")
+	})
+
 	// ---- (a') api.js_conv value mapping in every flavour (the inline native writer vs the Go fallback)
 	c.Run("j2t-jsconv-join", c.N(1500, 40000), func(cs *h.Case) {
 		k := jsConvCase(cs)
